@@ -65,7 +65,35 @@ def w_random(ctx, rng, idx):
 def w_special(ctx, rng, idx):
     """structured states: basis states, GHZ-like, states with exactly-zero outcomes"""
     n = int(rng.integers(2, 6))
-    k = idx % 3
+    k = idx % 4
+    if k == 3:
+        # textbook matrix-product forms (copy tensors), not a generic gauge: GHZ with single-qubit gates (H, X, Y, Z, S, T) applied to the
+        # physical legs - normalised and right-orthonormal, with exactly vanishing / exactly cancelling entries in the boundary tensors
+        n = int(rng.integers(2, 9))
+        cores = []
+        for i in range(n):
+            c = np.zeros((1 if i == 0 else 2, 2, 1, 1 if i == n - 1 else 2), dtype=complex)
+            for b in range(2):
+                c[0 if i == 0 else b, b, 0, 0 if i == n - 1 else b] = 1.0
+            cores.append(c)
+        cores[0] = cores[0] / np.sqrt(2)
+        gates = {'H': np.array([[1, 1], [1, -1]]) / np.sqrt(2), 'X': np.array([[0, 1], [1, 0]]), 'Y': np.array([[0, -1j], [1j, 0]]), 'Z': np.diag([1, -1]),
+                 'S': np.diag([1, 1j]), 'T': np.diag([1, np.exp(0.25j * np.pi)])}
+        applied = []
+        for i in range(n):
+            if rng.random() < 0.5:
+                g = list(gates)[int(rng.integers(0, len(gates)))]
+                cores[i] = np.einsum('st,atcb->ascb', gates[g], cores[i])
+                applied.append((i, g))
+        if rng.random() < 0.5:
+            cores = [np.real(c) if not np.any(np.imag(c)) else c for c in cores]  # (real cores where the amplitudes are real: mixed dtypes)
+        with probe.oracle():
+            t = tt.TT(cores)
+        sub = sorted(int(i) for i in rng.choice(n, size=int(rng.integers(1, n + 1)), replace=False))
+        N = int(10 ** rng.uniform(1, 4.2))
+        ctx.describe({'op': 'sampling textbook GHZ + gates', 'qubits': n, 'gates': applied, 'measured': sub, 'samples': N})
+        call('quantum_computation.sampling', qc.sampling, t, sub, N, prop=P)
+        return
     v = np.zeros([2] * n, dtype=complex)
     if k == 0:
         v[tuple(int(b) for b in rng.integers(0, 2, size=n))] = 1.0
